@@ -192,9 +192,9 @@ class SetattrDelegate(CContract):
                 since.append(r)
             quiet = all(r[0] not in ("setattr", "callmethod") for r in since) and \
                 all(r[0] not in ("setattr", "callmethod") for r in entry.trace)
-            o1 = z3.Store(own0, dan, own0[dan] + 1)
+            o1 = A.own_add(own0, dan, 1)
             out = [("current-name-and-current-delegate-each-held-by-one-reference",
-                    z3.And(dan != NULL, st.own == z3.Store(o1, dele, o1[dele] + 1))),
+                    z3.And(dan != NULL, st.own == A.own_add(o1, dele, 1))),
                    ("delegate-and-trait-valid", z3.And(dele != NULL, td != NULL)),
                    ("trait-is-a-delegating-trait", ex2.field_array(st, "delegate_name")[td] != NULL),
                    ("no-error-pending", st.exc == 0),
@@ -403,9 +403,9 @@ class HasTraitsTrait(CContract):
         def inv(ex2, st, entry):
             own0 = self._own0
             tr, dele, dan, i = st.env["trait"], st.env["delegate"], st.env["daname"], st.env["i"]
-            o1 = z3.Store(own0, tr, own0[tr] + 1)
-            o2 = z3.Store(o1, dele, o1[dele] + 1)
-            o3 = z3.Store(o2, dan, o2[dan] + 1)
+            o1 = A.own_add(own0, tr, 1)
+            o2 = A.own_add(o1, dele, 1)
+            o3 = A.own_add(o2, dan, 1)
             out = [("trait-delegate-and-name-each-held-by-one-reference", z3.And(tr != NULL, dele != NULL, dan != NULL, st.own == o3)),
                    ("no-error-pending", st.exc == 0), ("hop-count-in-range", z3.And(i >= 0, i < 100))]
             for n in ("obj", "name", "instance"):
